@@ -371,6 +371,25 @@ theorem c02_hashlittle2_any_address (addr : Nat) (key after : List UInt8) (pc pb
     AwsVerif.Lookup3.hashlittle2C addr (key ++ after) key.length pc pb = AwsVerif.Lookup3.hashlittle2 key pc pb :=
   hashlittle2C_eq addr key after pc pb
 
+/-- the second build configuration, `-DVALGRIND`: the 32-bit-load path then uses its byte-exact tail switch
+(`Gen.l3Tail32V`, extracted from the `#else` branch); it computes the same byte-wise function (the memory behind
+the key is not read by this variant, so `after` plays no role — the statement keeps it only to share its shape) -/
+theorem c02_hashlittle2_aligned32_valgrind (key after : List UInt8) (pc pb : UInt32) :
+    AwsVerif.Lookup3.hashlittle2Path Gen.l3Block32 Gen.l3Tail32V (key ++ after) key.length pc pb =
+      AwsVerif.Lookup3.hashlittle2 key pc pb := path32V_eq key after pc pb
+
+/-- `hashlittle2` as compiled with `-DVALGRIND`, at any address -/
+theorem c02_hashlittle2_any_address_valgrind (addr : Nat) (key after : List UInt8) (pc pb : UInt32) :
+    AwsVerif.Lookup3.hashlittle2CV addr (key ++ after) key.length pc pb = AwsVerif.Lookup3.hashlittle2 key pc pb :=
+  hashlittle2CV_eq addr key after pc pb
+
+/-- non-vacuity for the `-DVALGRIND` tables: a 6-byte and a 31-byte key through the 32-bit path of that variant -/
+example :
+    AwsVerif.Lookup3.hashlittle2CV 0 (fourScore.take 6 ++ [0xEE]) 6 5 9 = AwsVerif.Lookup3.hashlittle2 (fourScore.take 6) 5 9 ∧
+    AwsVerif.Lookup3.hashlittle2CV 4 (fourScore ++ [0x21, 0xEE]) 31 0 0 =
+      AwsVerif.Lookup3.hashlittle2 (fourScore ++ [0x21]) 0 0 ∧
+    Gen.l3Tail32V ≠ Gen.l3Tail32 := by decide
+
 /-- non-vacuity: the masked word load of the 32-bit path really sees the byte behind a 7-byte key (so the masks
 matter), and the theorem's instance on that memory is a concrete equation -/
 example :
